@@ -484,6 +484,58 @@ func runC02(c *engine.Ctx) {
 	// ---- R7 ----
 	checkStacks(c, "R7")
 	checkLimiterLoops(c, "R7b")
+
+	// ---- R8 misdirected-request guard of the https2* plugins ----
+	c.Rule("R8", "the https2http / https2https handlers answer 421 only when the TLS server name is present and differs from the request host (a request without SNI, e.g. to an IP literal, is forwarded)")
+	n8 := 0
+	canon := funcObj(c, "pkg/util/http", "CanonicalHost")
+	for _, f := range c.P.RepoFuncs() {
+		if f.Pkg == nil || !strings.HasSuffix(f.Pkg.Pkg.Path(), "/pkg/plugin/client") || canon == nil {
+			continue
+		}
+		engine.ForEachInstr(f, func(in ssa.Instruction) {
+			call, ok := in.(ssa.CallInstruction)
+			if !ok {
+				return
+			}
+			is421 := false
+			for _, a := range call.Common().Args {
+				if k, ok := engine.ConstInt(a); ok && k == 421 {
+					is421 = true
+				}
+			}
+			if !is421 {
+				return
+			}
+			n8++
+			canonOf := func(fieldName string) func(ssa.Value) bool {
+				return func(v ssa.Value) bool {
+					cl, i := engine.ResultOfCall(v)
+					if cl == nil || i != 0 || !engine.SameFunc(engine.CalleeObj(cl), canon) {
+						return false
+					}
+					src := engine.Provenance(cl.Call.Args[0], engine.ProvOpts{})
+					for fv := range src.Fields {
+						if fv.Name() == fieldName {
+							return true
+						}
+					}
+					return false
+				}
+			}
+			empty := func(v ssa.Value) bool { s, ok := engine.ConstString(v); return ok && s == "" }
+			c.AllPaths(c.P.FuncName(f)+">421", engine.PathCheck{Fn: f, Sink: engine.Is(in), Pred: func(st *engine.PathState) string {
+				if eq, k := st.Equal(canonOf("ServerName"), empty); !(k && !eq) {
+					return "421 is answered on a path where the TLS server name was not found non-empty: clients that send no SNI are refused instead of forwarded"
+				}
+				if eq, k := st.Equal(canonOf("ServerName"), canonOf("Host")); !(k && !eq) {
+					return "421 is answered on a path where the server name was not found different from the request host"
+				}
+				return ""
+			}}, "421 only for a present, mismatching server name")
+		})
+	}
+	c.Floor(n8, 2)
 }
 
 func keysOf(m map[string]bool) []string {
